@@ -57,6 +57,30 @@ def gen_case(rng, cfg, idx):
                 {"k": "call", "out": "v2", "fn": "getitem", "a": [["r", "x1"], ["e"]], "sp": "mg"},
                 {"k": "backward", "tgt": "x1", "seed": ["r", "__g"]}]
         return {"kind": "leafseed", "prog": prog, "L": "x1"}
+    if idx % 40 in (13, 27):
+        # a masked ufunc (where=) whose local derivative is the identity or a constant, writing into a caller-owned plain array, back-propagated
+        # directly with a caller-owned seed of the result's own dtype and layout: the seed reaches Operation.backward un-copied
+        shp = B.rand_shape(rng, 2, 4, 1)
+        vals = lambda: B.rand_values(rng, shp).ravel().tolist()
+        n = int(np.prod(shp))
+        fn = rng.choice(["add", "subtract", "positive", "negative", "multiply", "add", "positive"])
+        mask = [bool(rng.random() < 0.5) for _ in range(n)]
+        if all(mask) or not any(mask):
+            mask[0] = not mask[0]
+        prog = [{"k": "leaf", "out": "x1", "kind": "tensor", "dtype": "float64", "shape": list(shp), "data": vals(), "constant": None, "layout": "C"},
+                {"k": "leaf", "out": "y2", "kind": rng.choice(["tensor", "array"]), "dtype": "float64", "shape": list(shp), "data": vals(), "constant": None, "layout": "C"},
+                {"k": "leaf", "out": "__m", "kind": "array", "dtype": "bool", "shape": list(shp), "data": mask, "layout": "C"},
+                {"k": "leaf", "out": "__o", "kind": "array", "dtype": "float64", "shape": list(shp), "data": [0.0] * n, "layout": "C"},
+                {"k": "leaf", "out": "__g", "kind": "array", "dtype": "float64", "shape": list(shp), "data": vals(), "layout": "C"}]
+        args = [["r", "x1"]] if fn in ("positive", "negative") else ([["r", "x1"], ["r", "y2"]] if rng.random() < 0.6 else [["r", "y2"], ["r", "x1"]])
+        prog.append({"k": "call", "out": "z3", "fn": fn, "a": args, "kw": {"where": ["r", "__m"], "out": ["r", "__o"]}, "sp": rng.choice(["mg", "np"])})
+        if idx % 40 == 27:
+            # the masked result is an INTERMEDIATE tensor: its stored gradient must not be rewritten by the pass through its creator either
+            prog.append({"k": "call", "out": "w4", "fn": "multiply", "a": [["r", "z3"], 3.0], "sp": "op"})
+            prog.append({"k": "backward", "tgt": "w4", "seed": ["r", "__g"]})
+            return {"kind": "maskedseed", "prog": prog, "L": "w4", "mid": "z3"}
+        prog.append({"k": "backward", "tgt": "z3", "seed": ["r", "__g"]})
+        return {"kind": "maskedseed", "prog": prog, "L": "z3"}
     r = idx % 3
     if r == 0:
         for _ in range(20):
@@ -157,11 +181,15 @@ def run_case(case):
             o = sh.owner.get(st["tgt"])
             fam = {n for n, oo in sh.owner.items() if oo == o}
         after_c = caller_objects(it)
+        out_target = st.get("kw", {}).get("out") if st["k"] == "call" else None
+        out_target = out_target[1] if isinstance(out_target, list) and out_target[:1] == ["r"] else None
         for k, h in before_c.items():
             if k in after_c and dg(after_c[k]) != h:
                 nm = k.split(":", 1)[1]
                 if k.startswith("src:") and nm in fam:
                     continue
+                if nm == out_target:
+                    continue     # the array the caller handed over as out= is the one thing the call is asked to write
                 viol.append({"monitor": "M-immut", "mech": f"caller-object-modified:{st['k']}:{st.get('fn', st.get('op', ''))}",
                              "msg": f"stmt {i} ({st['k']} {st.get('fn', '')}) modified caller-owned object {k}"})
         for j in range(nlit, len(it.literals)):   # literals decoded for this very statement: compare with a fresh decode
@@ -191,6 +219,13 @@ def run_case(case):
             cnt["literal_checks"] = cnt.get("literal_checks", 0) + 1
             if a.shape != b.shape or not np.array_equal(a, b, equal_nan=True):
                 viol.append({"monitor": "M-immut", "mech": "literal-operand-modified", "msg": f"literal operand #{j} was modified in place: {b.ravel()[:4]} vs {a.ravel()[:4]}"})
+    if case.get("mid") and not viol:
+        # the gradient stored on the intermediate (masked) tensor is what flowed into it - at masked-out positions too
+        cnt["masked_mid_checks"] = cnt.get("masked_mid_checks", 0) + 1
+        gm = it.env[case["mid"]].grad
+        want = 3.0 * np.asarray(it.env["__g"])
+        if gm is None or gm.shape != want.shape or not np.array_equal(gm, want):
+            viol.append({"monitor": "M-immut", "mech": "intermediate-gradient-rewritten", "msg": f"{case['mid']}.grad is {None if gm is None else gm.ravel()[:4]}, the gradient that flowed into it is {want.ravel()[:4]}"})
     # ---- M-alias after the final backward
     tens = {n: v for n, v in it.env.items() if mgrun.is_tensor(v)}
     nbw = sum(1 for st in prog if st["k"] in ("backward", "clear"))
